@@ -57,7 +57,7 @@ def analyse(r, res):
                 harness_problems.append((i, part))
             else:
                 other.append((i, part))
-    npk = sum(1 for c in cases if c.startswith("dec.assign"))
+    npk = sum(1 for c in cases if c.startswith("dec.assign "))
     r.cov["programs"] = npk
     r.cov["assign_counters"] = counters
 
@@ -85,8 +85,22 @@ def analyse(r, res):
     if other:
         r.notes.append("oracle lines of other properties: %s" % [w[:200] for _, w in other[:3]])
 
+    # 3a. the hypotheses of the theorems hold on every case (decided by the driver with the predicates the theorems use)
+    hyp = [m for m in res["mismatches"] if m[1].startswith("dec.assignwf ")]
+    nhyp = sum(1 for c in cases if c.startswith("dec.assignwf "))
+    r.obligations.append(("hypotheses: WF (helper-rule shapes, helper names are no Go identifiers) and IdentEquiv (Identical is an equivalence on the tabulated universe) hold on every case (decide (WF c), identCheck)",
+                          not hyp and nhyp > 0, "%d failing of %d%s" % (len(hyp), nhyp, (": " + hyp[0][3]) if hyp else "")))
+    if hyp and not hits:
+        i, c, im, mo = hyp[0]
+        name = pkg_of(cases, i)
+        r.violation("assign-hyp", {
+            "kind": "theorem-hypothesis-fails", "family": FAMILY, "package": name, "answer": mo,
+            "package_text": extra.get("src:%s" % name), "case_line": c[:20000],
+            "note": "theorems Lox.Props.C06.* assume WF c and IdentEquiv c; on this case the driver decides them false, so they no longer speak about what the front end / go/types produce",
+        }, False)
+
     # 3. model = implementation
-    mism = [m for m in res["mismatches"] if m[1].startswith("dec.assign")]
+    mism = [m for m in res["mismatches"] if m[1].startswith("dec.assign ")]
     r.obligations.append(("correspondence dec.assign: Lean model of AssignActions = real codegen.Generate (verdict, diagnostics kind:subject, binding, rule types) on every package",
                           not mism and npk > 0, "%d mismatches of %d" % (len(mism), npk)))
     if mism and not hits:
